@@ -9,11 +9,11 @@
    duplicate index is refused with ValueError; shares carry the indexes 1..n and field elements.
    FlipVariant = TRUE combines with the other variant (native <-> ssss): the model must then be violated (separation). *)
 EXTENDS GF2m
-CONSTANTS MaxN, MaxK, FlipVariant
+CONSTANTS FieldM, MaxN, MaxK, FlipVariant       \* FieldM = 3: GF(2^3), x^3 + x + 1;  FieldM = 4: GF(2^4), x^4 + x + 1
 VARIABLES c, tape, shares, r
 vars == <<c, tape, shares, r>>
-F == GfF3
-El == 0..7
+F == IF FieldM = 3 THEN GfF3 ELSE GfF4
+El == 0..(GfPow2[FieldM + 1] - 1)
 ElSeq(t) == [i \in 1..Len(t) |-> GfOfNat(t[i])]
 Injective(s) == \A i, j \in DOMAIN s : i # j => s[i] # s[j]
 Orders(k, n) == {s \in [1..k -> 1..n] : Injective(s)}
